@@ -87,6 +87,13 @@ fn args(out: &mut Vec<OrderFact>, kinds: [&'static str; 2], owner: &str, a: &[In
 
 /// The ordered collections of the schema that `doc` describes.
 pub fn expected_order(doc: &Document) -> Vec<OrderFact> {
+    expected_order_with(doc, false)
+}
+
+/// `adopt`: extensions of a name that is never defined extend an empty definition that is listed
+/// after all defined types, in the order the names are first extended (apollo's documented
+/// `adopt_orphan_extensions` mode; not part of the specification).
+pub fn expected_order_with(doc: &Document, adopt: bool) -> Vec<OrderFact> {
     let mut out = vec![];
     // types in definition order; built-in types are not listed (their position is the implementation's business)
     let mut user_types: Vec<&TypeDef> = vec![];
@@ -97,6 +104,17 @@ pub fn expected_order(doc: &Document) -> Vec<OrderFact> {
             }
         }
     }
+    let mut adopted: Vec<TypeDef> = vec![];
+    if adopt {
+        for d in &doc.defs {
+            if let Definition::Type(t) = d {
+                if t.is_ext && !is_builtin_type_name(&t.name) && !user_types.iter().any(|u| u.name == t.name) && !adopted.iter().any(|u| u.name == t.name) {
+                    adopted.push(TypeDef::new(t.kind, &t.name));
+                }
+            }
+        }
+    }
+    user_types.extend(adopted.iter());
     fact(&mut out, "types", "<types>".into(), user_types.iter().map(|t| t.name.clone()).collect::<Vec<_>>().join(","), false);
     // names that are only extended (built-in types)
     let mut extended_builtins: Vec<(&str, TypeKind)> = vec![];
